@@ -40,6 +40,27 @@ XMC_TEST(self_mp_relaxed_race, "message passing with relaxed flag - data race on
   join_all();
   delete s;
 }
+// an access AFTER a release is not ordered before the acquirer (a guard released too early: seed C13c, missed by the
+// first version of the race detector, whose epochs changed only in front of a visible operation)
+XMC_TEST(self_access_after_release, "plain access after the release store races with the acquirer's write") {
+  struct S { int data; std::atomic<int> flag; };
+  auto* s = new S{0, {0}};
+  spawn([s] { s->flag.store(1, std::memory_order_release); if (s->data == 7) note("saw the writer"); });
+  spawn([s] { if (s->flag.load(std::memory_order_acquire) == 1) s->data = 7; });
+  join_all();
+  delete s;
+}
+XMC_TEST(self_access_after_release_rmw, "plain access after a release RMW / release fence races with the acquirer's write") {
+  struct S { int data; int data2; std::atomic<int> flag; std::atomic<int> flag2; };
+  auto* s = new S{0, 0, {0}, {0}};
+  spawn([s] {
+    s->flag.fetch_add(1, std::memory_order_release);
+    if (s->data == 7) note("saw the writer");
+  });
+  spawn([s] { if (s->flag.load(std::memory_order_acquire) == 1) s->data = 7; });
+  join_all();
+  delete s;
+}
 XMC_TEST(self_mp_release_ok, "message passing with release/acquire - no race") {
   struct S { int data; std::atomic<int> flag; };
   auto* s = new S{0, {0}};
